@@ -941,11 +941,16 @@ mod builtins {
             } else {
                 // Fast path for a more common case of single key
                 let key = if !keys.is_empty() { keys[0] } else { attr };
+                // an item without the attribute sorts like an undefined key (as
+                // in the multi key case); treating it as equal to everything
+                // would not be an order.
                 safe_sort(&mut items, |a, b| {
-                    match (a.get_path(key), b.get_path(key)) {
-                        (Ok(a), Ok(b)) => cmp_helper(&a, &b, case_sensitive, reverse),
-                        _ => Ordering::Equal,
-                    }
+                    cmp_helper(
+                        &a.get_path_or_default(key, &Value::UNDEFINED),
+                        &b.get_path_or_default(key, &Value::UNDEFINED),
+                        case_sensitive,
+                        reverse,
+                    )
                 })?;
             }
         } else {
